@@ -1,4 +1,5 @@
 import Grexv.Model.Format
+import Grexv.Lemmas.Presentation
 
 /-!
 # C06 — verbose mode, capturing groups and escaping are presentation only (text-level facts)
@@ -64,5 +65,18 @@ theorem paren_kind (color : Bool) :
 /-- the flag prefix is `(?x)` / `(?ix)` followed by a line break exactly in verbose mode -/
 theorem verbose_flag : Comp.flagX false = strOf "(?x)\n" ∧ Comp.flagIX false = strOf "(?ix)\n" ∧ Comp.flagI false = strOf "(?i)" := by
   decide
+
+/-- **C06 (verbose mode, capturing groups and colour are not seen by any stage before printing)** for two
+configurations that agree on everything except capturing groups, verbose mode, colour and anchors,
+the stored test cases, the clusters, the trie, the minimised automaton and the expression computed
+from it are identical — for every input.  These options can therefore change the output only in
+`Display` (and, with both anchors off, in which self-check candidate is kept) -/
+theorem presentation_only {c1 c2 : Config} (h : SameStageInputs c1 c2) (env : Env) (ws : List Str)
+    (st1 st2 : Stages) (h1 : regExpFrom c1 env ws = .ok st1) (h2 : regExpFrom c2 env ws = .ok st2) :
+    st1.sorted = st2.sorted ∧ st1.clusters = st2.clusters ∧ st1.trie = st2.trie ∧ st1.minimized = st2.minimized ∧
+      st1.firstAst = st2.firstAst := firstAst_independent h env ws st1 st2 h1 h2
+
+/-- non-vacuity: verbose + capturing groups against the plain build -/
+example : SameStageInputs { verb := true, cap := true, digit := true } { digit := true } := by simp [SameStageInputs]
 
 end Grexv.Props.C06
